@@ -799,7 +799,7 @@ func runConvCase(c *Ctx, m string, a *variants.Variant, t variants.VariantType) 
 				c.fail(Failure{Kind: "oracle", Op: op, Impl: impl, Note: fmt.Sprintf("%d converted to a time span must be %d milliseconds, got %v", n, n, res.AsTimeSpan())})
 				return impl
 			}
-			if t == variants.DateTime && n > -1<<40 && n < 1<<40 && !res.AsDateTime().Equal(time.Unix(n, 0)) {
+			if t == variants.DateTime && !res.AsDateTime().Equal(time.Unix(n, 0)) {
 				c.fail(Failure{Kind: "oracle", Op: op, Impl: impl, Note: fmt.Sprintf("%d converted to a date-time must be %d seconds after the Unix epoch, got %v", n, n, res.AsDateTime())})
 				return impl
 			}
@@ -951,6 +951,10 @@ func propC07(c *Ctx) {
 			y = -y
 		}
 		all = append(all, vLong(y), vInt(int(y)), vTime(time.Unix(x%253402300799, 0)))
+	}
+	// seconds counts beyond what milliseconds or nanoseconds in 64 bits can hold
+	for _, n := range []int64{9223372036854776, -9223372036854776, 9223372036854775, 9223372037, -9223372037, 1 << 62, -(1 << 62), 1 << 53, 253402300800, -62135596801} {
+		all = append(all, vLong(n), vInt(int(n)))
 	}
 	// date-times in zones with daylight saving: the repeated hour when it ends, the skipped hour when it starts, both
 	// representations of one instant
